@@ -570,13 +570,23 @@ def maxDepth : Nat := 32
     (injected) bytecode gets a generous fixed allowance. -/
 def blockFuel (code : List Instr) : Nat := code.length * 64 + 64
 
+/-- A nested-run callback that is never reached: in an interpreter without context and bindings
+    (`Interpreter::empty()`) no identifier names a program, nothing is callable and no macro exists. -/
+def noRec : Rec := fun _ _ _ log => { res := .error .depth, log := log }
+
+/-- `run_raw` at the top of a *fresh* interpreter (`eval_ident`: `Interpreter::empty().run_raw(..)`):
+    its depth counter starts again at zero, whatever the depth of the caller. -/
+def runFresh (B : Builtins) : Rec := fun env code resolve log =>
+  match loop B noRec noRec env code (blockFuel code) 0 { stack := [], log := log } with
+  | .fail a l => { res := .error a, log := l }
+  | .ok _ s => finish noRec env resolve s
+
 /-- `run_raw` at a given remaining depth budget. -/
 def runAt (B : Builtins) : Nat → Rec
   | 0 => fun _ _ _ log => { res := .error .depth, log := log }
   | b + 1 => fun env code resolve log =>
     let rec_ : Rec := runAt B b
-    let top : Rec := runAt B b   -- stand-in, replaced below for fresh interpreters
-    match loop B rec_ top env code (blockFuel code) 0 { stack := [], log := log } with
+    match loop B rec_ (runFresh B) env code (blockFuel code) 0 { stack := [], log := log } with
     | .fail a l => { res := .error a, log := l }
     | .ok _ s => finish rec_ env resolve s
 
